@@ -578,9 +578,14 @@ Ev(e, env, st) ==
          ELSE IF e.op = "$||" THEN BoolRed(r.v, TRUE, r.st)
          ELSE
            LET p == PullAll(r.v, <<>>, r.st)
-               \* ek = "dyn": the static type of the iterator is a union of iterator types; the neutral element is
-               \* that of the elements actually delivered (only used with non-empty sequences)
-               ek == IF e.ek = "dyn" THEN (IF IsOk(p) /\ Len(p.v) > 0 /\ p.v[1].k \in {"int", "float", "string"} THEN p.v[1].k ELSE "int") ELSE e.ek
+               \* ek = "dyn": the static type of the iterator is a union of iterator types; the neutral element is that of
+               \* ... the element type the iterator VALUE declares (its signature () -> (bool, T)); an iterator over `!'
+               \* (the empty array literal) sums to the int 0
+               dty == IF r.v.k = "fnv" /\ r.st.fns[r.v.id].sig.r.k = "tuple" /\ Len(r.st.fns[r.v.id].sig.r.es) = 2
+                      THEN r.st.fns[r.v.id].sig.r.es[2].k ELSE "never"
+               ek == IF e.ek = "dyn" THEN (IF dty \in {"int", "float", "string"} THEN dty
+                                           ELSE IF IsOk(p) /\ Len(p.v) > 0 /\ p.v[1].k \in {"int", "float", "string"} THEN p.v[1].k ELSE "int")
+                     ELSE e.ek
                zero == CASE e.op = "$+" -> (CASE ek = "int" -> IntV(0) [] ek = "float" -> FloatV(0) [] OTHER -> StrV(<<>>))
                          [] e.op = "$*" -> (IF ek = "int" THEN IntV(1) ELSE FloatV(2))
                          [] e.op = "$&" -> IntV(-1)
